@@ -3,7 +3,7 @@
 use crate::api::{self, Outcome, Resolver};
 use crate::evidence::{run_cases, Ctx, Local, Report, Violation};
 use crate::gen::{self, path_str, Profile, SelKind};
-use crate::keys;
+use crate::keys::{self, Alg};
 use crate::model;
 use crate::mon::c06::check_presentation;
 use crate::pipeline::{self, Config, Issued};
@@ -20,13 +20,14 @@ pub fn run(ctx: &Ctx) -> Report {
     let g = |k: &str| counters.get(k).copied().unwrap_or(0);
     let mut inconclusive = vec![];
     for pop in ["all", "decoys-on", "decoys-off", "in-payload", "in-disclosed-value", "decoys-on.in-payload", "decoys-on.in-disclosed-value", "decoys-off.in-payload", "decoys-off.in-disclosed-value",
-        "decoys-off.reals=2", "decoys-off.reals=3", "decoys-off.reals=4", "decoys-on.reals=2", "decoys-on.reals=3", "decoys-off.partly-visible-object", "decoys-on.partly-visible-object"] {
+        "decoys-off.reals=2", "decoys-off.reals=3", "decoys-off.reals=4", "decoys-on.reals=2", "decoys-on.reals=3", "decoys-off.partly-visible-object", "decoys-on.partly-visible-object",
+        "decoys-off.hidden-values-all-structured", "decoys-on.hidden-values-all-structured", "decoys-off.hidden-values-all-scalar", "decoys-on.hidden-values-all-scalar"] {
         let lists = g(&format!("order.{pop}.lists>=2real"));
         let inorder = g(&format!("order.{pop}.in-member-order"));
         if lists < 200 {
             // the three main populations must be large enough; sub-populations by location are
             // judged only when they happen to contain >= 200 lists
-            if ctx.only_case.is_none() && !pop.contains("in-") && !pop.contains("reals=") && !pop.contains("partly") {
+            if ctx.only_case.is_none() && !pop.contains("in-") && !pop.contains("reals=") && !pop.contains("partly") && !pop.contains("hidden-values") {
                 inconclusive.push(format!("order clause: only {lists} qualifying _sd lists in population {pop} (< 200)"));
             }
         } else if inorder == lists {
@@ -191,6 +192,15 @@ fn one_case(ctx: &Ctx, case: u64, l: &mut Local) {
             if list.has_visible {
                 pops.push(format!("{tagk}.partly-visible-object"));
             }
+            // (and by what the hidden members ARE: all of them objects / arrays, or all of them scalars)
+            let kinds: Vec<u8> = list.kinds.iter().filter_map(|k| *k).collect();
+            if kinds.len() == reals.len() {
+                if kinds.iter().all(|k| *k != 0) {
+                    pops.push(format!("{tagk}.hidden-values-all-structured"));
+                } else if kinds.iter().all(|k| *k == 0) {
+                    pops.push(format!("{tagk}.hidden-values-all-scalar"));
+                }
+            }
             for pop in pops {
                 l.count(&format!("order.{pop}.lists>=2real"));
                 if in_order {
@@ -265,6 +275,67 @@ fn one_case(ctx: &Ctx, case: u64, l: &mut Local) {
                     }
                 }
                 other => l.violate(Violation { subcheck: "verify".into(), class: tagk.into(), observed: other.panic_signature().unwrap_or_else(|| other.describe()), case, detail: json!({"input": base_input(), "history": api::history()}) }),
+            }
+        }
+    }
+    // ---- holder and verifier results for ANY call are those of the decoy-free case: selections that name
+    // members the claims do not have (in objects with and without hidden members), and key-bound
+    // presentations of credentials whose confirmation key came in as an ordinary visible `cnf` claim
+    if case % 4 == 1 {
+        let mut u2 = s.u.clone();
+        let mut strat2 = s.strat.clone();
+        let user_cnf = case % 8 == 5 && cfg.holder.is_none() && u2.get("cnf").is_none();
+        if user_cnf {
+            u2["cnf"] = json!({"jwk": keys::holder_jwk_json_canonical(Alg::ES256, 0)});
+            let kind = if cfg.strat.is_custom() { cfg.strat } else { gen::StratKind::NoSD };
+            strat2 = gen::gen_strategy(&mut r, &u2, kind);
+            if strat2.sd.iter().any(|p| matches!(p.first(), Some(gen::Step::K(k)) if k == "cnf")) {
+                strat2 = gen::gen_strategy(&mut r, &u2, gen::StratKind::NoSD);
+            }
+        }
+        let mut pair = vec![];
+        for decoys in [false, true] {
+            if let Ok(i) = pipeline::issue_with(&mut issuer, &u2, &strat2, cfg.holder, decoys, cfg.fmt) {
+                pair.push(i);
+            }
+        }
+        if pair.len() == 2 {
+            let kbh = if user_cnf { Some((Alg::ES256, 0usize)) } else { cfg.holder };
+            for round in 0..4 {
+                let base = pipeline::random_selection(&mut r, &u2);
+                let sel2 = if round == 0 { base } else { gen::spoil_selection(&mut r, &u2, &base) };
+                let kb = kbh.filter(|_| user_cnf || r.chance(40)).map(|h| pipeline::kb_args_for(&mut r, h));
+                let mut outs = vec![];
+                for i in &pair {
+                    l.evals += 1;
+                    let o: Outcome<Value> = match api::holder_new(&i.sd_jwt, cfg.fmt) {
+                        Outcome::Ok(mut h) => match api::present(&mut h, &sel2, kb.as_ref()) {
+                            Outcome::Ok(p) => api::verify(&p, &Resolver::Fixed(cfg.alg, 0), kb.as_ref().map(|k| (k.aud.as_str(), k.nonce.as_str())), cfg.fmt).out,
+                            other => other.map(|_| Value::Null),
+                        },
+                        other => other.map(|_| Value::Null),
+                    };
+                    outs.push(o);
+                }
+                let same = match (&outs[0], &outs[1]) {
+                    (Outcome::Ok(a), Outcome::Ok(b)) => a == b,
+                    (a, b) => a.class() == b.class(),
+                };
+                if same {
+                    l.count(&format!("twin.calls.same-result.{}", if outs[0].is_ok() { "ok" } else { "refused" }));
+                    if user_cnf && outs[0].is_ok() {
+                        l.count("twin.calls.user-cnf-key-bound.ok");
+                    }
+                } else {
+                    l.violate(Violation {
+                        subcheck: "twin-call-differs".into(),
+                        class: format!("{}{}", if round == 0 { "ordinary selection" } else { "selection naming an absent member" }, if user_cnf { ", cnf given as a visible claim, key-bound" } else { "" }),
+                        observed: format!("without decoys: {}, with decoys: {}", outs[0].class(), outs[1].class()),
+                        case,
+                        detail: json!({"claims": u2, "strategy": strat2.describe(), "selection": sel2, "key_bound": kb.is_some(),
+                                       "without_decoys": outs[0].describe(), "with_decoys": outs[1].describe()}),
+                    });
+                }
             }
         }
     }
